@@ -4,7 +4,6 @@ From DnsV Require Import Base.Bytes Base.Ip Spec.Lpm Model.Rearranger Model.Loca
 Open Scope N_scope.
 
 Record case := mk {
-  c_premask : bool;                       (* RocksDB drivers search from the masked address *)
   c_hit : bool;                           (* DNS_cache.hit was counted during the call *)
   c_inzone : bool;                        (* the name is at or below the served zone *)
   c_map8 : mapid; c_mapM : mapid;         (* maps declared for the name (exact, then nearest wildcard); (0,0) = none *)
